@@ -67,6 +67,14 @@ pub struct Deserializer<R> {
     remaining_depth: usize,
 }
 
+#[cfg(fe2o3_amqp_verif)]
+impl<'de, R: Read<'de>> Deserializer<R> {
+    /// Number of bytes consumed from the input so far (verification hook)
+    pub fn verif_bytes_consumed(&self) -> usize {
+        self.reader.bytes_consumed()
+    }
+}
+
 impl<'de, R: Read<'de>> Deserializer<R> {
     /// Creates a new AMQP1.0 (crate)deserializer
     pub fn new(reader: R) -> Self {
